@@ -24,6 +24,7 @@ import (
 	"seata.apache.org/seata-go/pkg/datasource/sql/exec"
 	"seata.apache.org/seata-go/pkg/datasource/sql/types"
 	"seata.apache.org/seata-go/pkg/datasource/sql/util"
+	"seata.apache.org/seata-go/pkg/tm"
 )
 
 type Stmt struct {
@@ -32,6 +33,8 @@ type Stmt struct {
 	txCtx *types.TransactionContext
 	query string
 	stmt  driver.Stmt
+	// atConn is set for statements prepared on an AT connection
+	atConn *ATConn
 }
 
 // Close closes the statement.
@@ -100,6 +103,21 @@ func (s *Stmt) QueryContext(ctx context.Context, args []driver.NamedValue) (driv
 		return nil, driver.ErrSkip
 	}
 
+	if s.atConn != nil && tm.IsGlobalTx(ctx) {
+		// a branch statement: same duties as ATConn.QueryContext, sent through the prepared statement
+		ret, err := s.atConn.execInBranch(ctx, s.query, args, func(ctx context.Context, _ string, args []driver.NamedValue) (types.ExecResult, error) {
+			ret, err := stmt.QueryContext(ctx, args)
+			if err != nil {
+				return nil, err
+			}
+			return types.NewResult(types.WithRows(ret)), nil
+		})
+		if err != nil {
+			return nil, err
+		}
+		return ret.GetRows(), nil
+	}
+
 	executor, err := exec.BuildExecutor(s.res.dbType, s.txCtx.TransactionMode, s.query)
 	if err != nil {
 		return nil, err
@@ -165,6 +183,21 @@ func (s *Stmt) ExecContext(ctx context.Context, args []driver.NamedValue) (drive
 	stmt, ok := s.stmt.(driver.StmtExecContext)
 	if !ok {
 		return nil, driver.ErrSkip
+	}
+
+	if s.atConn != nil && tm.IsGlobalTx(ctx) {
+		// a branch statement: same duties as ATConn.ExecContext, sent through the prepared statement
+		ret, err := s.atConn.execInBranch(ctx, s.query, args, func(ctx context.Context, _ string, args []driver.NamedValue) (types.ExecResult, error) {
+			ret, err := stmt.ExecContext(ctx, args)
+			if err != nil {
+				return nil, err
+			}
+			return types.NewResult(types.WithResult(ret)), nil
+		})
+		if err != nil {
+			return nil, err
+		}
+		return ret.GetResult(), nil
 	}
 
 	// in transaction, need run Executor
